@@ -384,6 +384,22 @@ def run_bilateral(ctx, report, case, compare_model=True):
     frame_checks(report, case, before, after, "bilateral")
     crop_independent(report, case, cfg, before["disparity_map"].astype(float), before["validity_mask"].astype(int),
                      after["disparity_map"], 50, win // 2, win - 1 - win // 2, "bilateral")
+    # the weights are those of the sigma_space of THIS call: an object that filtered before with another sigma_space giving
+    # the same window width (truncation of 3 sigma + 1, or a map smaller than the window) must not remember it
+    if ny * nx <= 400:
+        first = None
+        for cand in (ss + 0.2, ss - 0.2, ss + 0.3, ss * 1.5, ss + 2.0):
+            if cand > 0 and cand != ss and min(ny, nx, int(3 * cand + 1)) == win:
+                first = cand
+                break
+        if first is not None:
+            reused, fresh = fl.bilateral_reuse(before["disparity_map"], before["validity_mask"], first, ss, sc, invalid_mask())
+            report.hit("is_weighted_mean:object_reused")
+            if not np.array_equal(reused, fresh, equal_nan=True):
+                n = int(np.sum(~((reused == fresh) | (np.isnan(reused) & np.isnan(fresh)))))
+                report.fail("is_weighted_mean", "filter_object_reused_with_another_sigma_space", dict(case, first_sigma_space=first),
+                            {"differing_pixels": n},
+                            f"filter_bilateral(sigma_space={ss}) on an object that first filtered with sigma_space={first} differs from a fresh object on {n} pixels")
     return res["stats"]
 
 
